@@ -109,7 +109,7 @@ class Ctx:
             fr = Fraction(v)
             n, d = fr.numerator, fr.denominator
             return f"({n}#{d})" if n >= 0 else f"(-{-n}#{d})"
-        if isinstance(v, str) and self.strrank is not None and v in self.strrank:
+        if self.strrank is not None and not isinstance(v, (bool, int, float)) and _hashable(v) and v in self.strrank:
             return f"({self.strrank[v]}#1)"
         raise Unencodable(f"constant {v!r} is not of the tree's ordered sort")
 
@@ -121,7 +121,7 @@ class Ctx:
             return False
 
     def qset(self, s) -> str:
-        items = sorted(s, key=lambda v: (Fraction(v) if not isinstance(v, str) else self.strrank[v]))
+        items = sorted(s, key=lambda v: (Fraction(v) if isinstance(v, (bool, int, float)) else self.strrank[v]))
         return "[" + "; ".join(self.q(v) for v in items) + "]"
 
     def other(self, x) -> int:
@@ -142,8 +142,8 @@ class Ctx:
             if isinstance(x, float) and not math.isfinite(x):
                 return f"(VOther KFloat {self.other(x)}%nat {t})"
             return f"(VQ {k} {self.q(x)} {t})"
-        if k == "KStr" and self.strrank is not None and x in self.strrank:
-            return f"(VQ KStr {self.q(x)} {t})"
+        if self.strrank is not None and k in ("KStr", "KDatetime", "KUuid") and x in self.strrank:
+            return f"(VQ {k} {self.q(x)} {t})"
         if k == "KStr":
             return "(VColl KStr [" + "; ".join(f"(VOther KStr {self.other(c)}%nat true)" for c in x) + "])"
         if k in ("KList", "KTuple", "KSet", "KDict", "KRange"):
@@ -184,6 +184,7 @@ class Ctx:
             ks = p.klass if isinstance(p.klass, tuple) else (p.klass,)
             ids = []
             for k in ks:
+                k = getattr(k, "__origin__", k)      # typing.Hashable -> collections.abc.Hashable
                 if k not in CLASS_LIST:
                     raise Unencodable(f"class {k} not in the class table")
                 ids.append(str(CLASS_LIST.index(k)) + "%nat")
@@ -220,6 +221,14 @@ class Ctx:
         if T is RootPredicate:
             return f"(PRoot {self.self_ids.setdefault(id(p), len(self.self_ids))}%nat)"
         raise Unencodable(f"predicate class {T.__name__} is not in the model")
+
+
+def _hashable(x) -> bool:
+    try:
+        hash(x)
+        return True
+    except TypeError:
+        return False
 
 
 def _truthy(x) -> bool:
